@@ -50,7 +50,39 @@ class Ctx:
         self._add(OK, rule, site, msg, facts=facts, nontrivial=nontrivial)
 
     def bad(self, rule, site, construct, msg, facts=None, node=None):
+        # A function that calls a helper the reference tree does not have (and that could not be inlined, sa/canon.py S13)
+        # keeps part of its behaviour in code no rule was confirmed on: a mismatch found there is reported as
+        # inconclusive, not as a violation.
+        h = self._uninlined_helpers(site)
+        if h:
+            self._add(UNK, rule, site, 'not decided (%s now delegates to the new helper %s, which the analysis could not inline): %s'
+                      % (site.partition('::')[2] or site, ', '.join(sorted(h)), str(construct)[:160]), facts=facts, node=node)
+            return
         self._add(BAD, rule, site, msg, construct=construct, facts=facts, node=node)
+
+    def _uninlined_helpers(self, site):
+        cache = self.__dict__.setdefault('_helper_cache', {})
+        if site in cache:
+            return cache[site]
+        out = set()
+        try:
+            from .canon import refshapes
+            ref = refshapes()
+            rel, _, lname = site.partition('::')
+            mod = self.repo.modules.get(rel)
+            if mod is not None and lname in mod.funcs and ref:
+                fresh = {ln.rpartition('.')[2] for ln in mod.funcs if (rel + '::' + ln) not in ref and '<locals>' not in ln}
+                if fresh and (rel + '::' + lname) in ref:
+                    import ast as _ast
+                    for c in _ast.walk(mod.funcs[lname]):
+                        if isinstance(c, _ast.Call):
+                            nm = c.func.attr if isinstance(c.func, _ast.Attribute) else (c.func.id if isinstance(c.func, _ast.Name) else None)
+                            if nm in fresh:
+                                out.add(nm)
+        except Exception:
+            out = set()
+        cache[site] = out
+        return out
 
     def unk(self, rule, site, msg, facts=None, node=None):
         self._add(UNK, rule, site, msg, facts=facts, node=node)
